@@ -301,11 +301,15 @@ func nodeID(s string) *ua.NodeID {
 			return n
 		}
 	}
+	// synthetic names: "X..." live in the second added namespace, the others in the first
+	if strings.HasPrefix(s, "X") {
+		return ua.NewStringNodeID(2, s)
+	}
 	return ua.NewStringNodeID(1, s)
 }
 
 func specID(n *ua.NodeID) string {
-	if n.Namespace() == 1 && n.Type() == ua.NodeIDTypeString && !strings.Contains(n.StringID(), "=") && synthetic {
+	if synthetic && (n.Namespace() == 1 || n.Namespace() == 2) && n.Type() == ua.NodeIDTypeString && !strings.Contains(n.StringID(), "=") {
 		return n.StringID()
 	}
 	return n.String()
@@ -340,32 +344,65 @@ func mkNode(nid *ua.NodeID, name string, nc ua.NodeClass, refs []*ua.ReferenceDe
 		func() *ua.DataValue { return server.DataValueFromValue(int32(1)) })
 }
 
-// populateSyn builds the synthetic space of spec/Browse/BrowseSyn.tla in namespace 1.
+// synNS returns the added namespace a synthetic name lives in.
+func synNS(s *server.Server, name string) *server.NodeNameSpace {
+	i := 1
+	if strings.HasPrefix(name, "X") {
+		i = 2
+	}
+	ns, err := s.Namespace(i)
+	if err != nil {
+		panic(err)
+	}
+	return ns.(*server.NodeNameSpace)
+}
+
+// populateSyn builds the synthetic space of spec/Browse/BrowseSyn.tla in two added namespaces
+// (plus HasSubtype references hung onto real namespace-0 reference types).
 func populateSyn(sp space) func(*server.Server) {
 	return func(s *server.Server) {
-		ns := server.NewNodeNameSpace(s, "urn:verif:browse")
+		server.NewNodeNameSpace(s, "urn:verif:browse")
+		server.NewNodeNameSpace(s, "urn:verif:browse2")
 		hs := ua.NewNumericNodeID(0, id.HasSubtype)
-		for t, ch := range sp.Types {
+		types := make([]string, 0, len(sp.Types))
+		for t := range sp.Types {
+			types = append(types, t)
+		}
+		sort.Strings(types)
+		for _, t := range types {
 			tid := nodeID(t)
 			if tid.Namespace() == 0 {
-				continue // a standard type hung into the synthetic hierarchy: it exists already
+				continue // a standard type: it exists already
 			}
 			var refs []*ua.ReferenceDescription
-			for _, c := range ch {
+			for _, c := range sp.Types[t] {
 				refs = append(refs, mkRef(hs, true, nodeID(c), c, ua.NodeClassReferenceType))
 			}
-			ns.AddNode(mkNode(tid, t, ua.NodeClassReferenceType, refs))
+			synNS(s, t).AddNode(mkNode(tid, t, ua.NodeClassReferenceType, refs))
+		}
+		// synthetic subtypes of a namespace-0 type: added to the real node through the server API
+		for _, t := range types {
+			tid := nodeID(t)
+			if tid.Namespace() != 0 {
+				continue
+			}
+			parent := s.Node(tid)
+			for _, c := range sp.Types[t] {
+				if child := s.Node(nodeID(c)); parent != nil && child != nil {
+					parent.AddRef(child, server.RefType(id.HasSubtype), true)
+				}
+			}
 		}
 		for c, name := range sp.Targets {
 			ci, _ := strconv.Atoi(c)
-			ns.AddNode(mkNode(nodeID(name), name, ua.NodeClass(ci), nil))
+			synNS(s, name).AddNode(mkNode(nodeID(name), name, ua.NodeClass(ci), nil))
 		}
 		for nd, rs := range sp.Nodes {
 			var refs []*ua.ReferenceDescription
 			for _, r := range rs {
 				refs = append(refs, mkRef(nodeID(r.T), r.F, nodeID(r.N), r.N, ua.NodeClass(r.C)))
 			}
-			ns.AddNode(mkNode(nodeID(nd), nd, ua.NodeClassObject, refs))
+			synNS(s, nd).AddNode(mkNode(nodeID(nd), nd, ua.NodeClassObject, refs))
 		}
 	}
 }
@@ -514,7 +551,7 @@ func childRun() {
 		for cur < r.Phase && cur+1 < len(in.Phases) {
 			cur++
 			sp = in.Phases[cur]
-			if err := applyAdds(s, sp); err != nil {
+			if err := applyAdds(s, c, sp); err != nil {
 				fmt.Fprintln(os.Stderr, "adds:", err)
 				os.Exit(4)
 			}
@@ -570,15 +607,27 @@ func checkSpace(s *server.Server, sp space) {
 	}
 }
 
-// applyAdds performs the AddSubtype / AddRef actions of a phase on the running server.
-func applyAdds(s *server.Server, sp space) error {
-	nsi, err := s.Namespace(1)
-	if err != nil {
-		return err
-	}
-	ns := nsi.(*server.NodeNameSpace)
+// applyAdds performs the actions of a phase on the running server: a client reads attributes
+// of nodes (kind read), the application adds reference types and references through the
+// server API (AddNode, Node.AddRef).
+func applyAdds(s *server.Server, c *opcua.Client, sp space) error {
+	added := map[string]int{} // node -> number of references of this phase already applied
 	for _, a := range sp.Adds {
 		switch a.Kind {
+		case "read":
+			nid := nodeID(a.Node)
+			var rv []*ua.ReadValueID
+			for _, at := range []ua.AttributeID{ua.AttributeIDNodeID, ua.AttributeIDNodeClass, ua.AttributeIDBrowseName,
+				ua.AttributeIDDisplayName, ua.AttributeIDDescription, ua.AttributeIDValue, ua.AttributeIDDataType,
+				ua.AttributeIDAccessLevel, ua.AttributeIDEventNotifier} {
+				rv = append(rv, &ua.ReadValueID{NodeID: nid, AttributeID: at, DataEncoding: &ua.QualifiedName{}})
+			}
+			ctx, cancel := context.WithTimeout(context.Background(), 10*time.Second)
+			_, err := c.Read(ctx, &ua.ReadRequest{NodesToRead: rv, TimestampsToReturn: ua.TimestampsToReturnBoth})
+			cancel()
+			if err != nil {
+				return fmt.Errorf("read of %s: %v", a.Node, err)
+			}
 		case "subtype":
 			parent := s.Node(nodeID(a.Parent))
 			if parent == nil {
@@ -586,17 +635,27 @@ func applyAdds(s *server.Server, sp space) error {
 			}
 			child := s.Node(nodeID(a.Child))
 			if child == nil {
-				child = ns.AddNode(mkNode(nodeID(a.Child), a.Child, ua.NodeClassReferenceType, nil))
+				child = synNS(s, a.Child).AddNode(mkNode(nodeID(a.Child), a.Child, ua.NodeClassReferenceType, nil))
 			}
 			parent.AddRef(child, server.RefType(id.HasSubtype), true)
 		case "ref":
-			// Node.AddRef only takes namespace-0 numeric reference types; a node with the longer
-			// reference list is (re-)added instead, which replaces the node in the namespace
-			var refs []*ua.ReferenceDescription
-			for _, r := range sp.Nodes[a.Node] {
-				refs = append(refs, mkRef(nodeID(r.T), r.F, nodeID(r.N), r.N, ua.NodeClass(r.C)))
+			node := s.Node(nodeID(a.Node))
+			if node == nil {
+				return fmt.Errorf("no node %s", a.Node)
 			}
-			ns.AddNode(mkNode(nodeID(a.Node), a.Node, ua.NodeClassObject, refs))
+			added[a.Node]++
+			rt, target := nodeID(a.Ref.T), s.Node(nodeID(a.Ref.N))
+			if rt.Namespace() == 0 && rt.Type() != ua.NodeIDTypeString && target != nil {
+				// Node.AddRef: the reference description (class, names) is derived from the target node
+				node.AddRef(target, server.RefType(rt.IntID()), a.Ref.F)
+				continue
+			}
+			// Node.AddRef only takes namespace-0 numeric reference types; a node with the longer
+			// reference list is (re-)added instead, which replaces the node in the namespace.
+			// The references the node holds are kept as they are; the new one is appended.
+			refs := server.VerifNodeRefs(node)
+			refs = append(refs, mkRef(rt, a.Ref.F, nodeID(a.Ref.N), a.Ref.N, ua.NodeClass(a.Ref.C)))
+			synNS(s, a.Node).AddNode(mkNode(nodeID(a.Node), a.Node, ua.NodeClassObject, refs))
 		default:
 			return fmt.Errorf("unknown addition %q", a.Kind)
 		}
